@@ -48,6 +48,7 @@
 */
 
 #include "nlopt-util.h"
+#include "nlopt-verif.h"
 
 #if defined(HAVE_STDINT_H)
 #  include <stdint.h>
@@ -120,6 +121,13 @@ static uint32_t nlopt_genrand_int32(void)
     }
 
     y = mt[mti++];
+#ifdef NLOPT_VERIF
+    if (nlopt_verif_hooks.rng_raw) {
+        unsigned forced;
+        if (nlopt_verif_hooks.rng_raw(&forced))
+            return (uint32_t) forced;
+    }
+#endif
 
     /* Tempering */
     y ^= (y >> 11);
